@@ -106,6 +106,17 @@ def run(chk):
                 c = dict(m)
                 c.update({"kind": "cut", "b": b, "in": inp})
                 cases.append(c)
+    # the scanning loops (trim, greedy, compress, replace) at their boundaries: every record ≤ 6 bytes made of the
+    # delimiter's own bytes (plus one other byte) × self-overlapping multi-byte delimiters × -t l|r|b × -g / -p / -r
+    from gen import bytes_upto
+    for d in (b"--", b"aa", b"aba", b"::", b"-"):
+        alpha = sorted(set(bytes([x]) for x in d)) + [b"x"]
+        for rec in bytes_upto(alpha, 6 if len(alpha) <= 2 else 5):
+            for t in ("l", "r", "b"):
+                for extra in ({}, {"g": True}, {"p": True}, {"r": b"/", "j": True}, {"s": True}):
+                    c = {"kind": "cut", "eng": "auto", "d": d, "b": ("2", "1:", "-1")[len(rec) % 3], "in": rec + b"\n", "t": t, "fb": b"G"}
+                    c.update(extra)
+                    cases.append(c)
     for c in cases[1000:1003]:
         chk.sample(case_line(c))
     lines, impl, model = evaluate(chk, cases, "K-engines", spec=False)
